@@ -122,6 +122,15 @@ def find_sinks(repo, uni, fi):
                         out.append(('getattr-const', n,
                                     '%s of a data value by the fixed name '
                                     '%r' % (d[9:], lit)))
+            elif d in ('operator.attrgetter', 'operator.methodcaller') and \
+                    n.args and all(
+                        isinstance(const_str(repo, fi, a), str) and
+                        not any(seg.startswith('_') for seg in
+                                const_str(repo, fi, a).split('.'))
+                        for a in (n.args if d.endswith('attrgetter')
+                                  else n.args[:1])):
+                # a fixed public name: the same as writing x.name
+                continue
             elif d in FORBIDDEN_CALLS or (d and d.startswith(
                     FORBIDDEN_PREFIXES)):
                 out.append(('forbidden-call', n, d))
@@ -571,24 +580,6 @@ def check_yaqlized_type(repo, rep):
     init = mod.functions.get('Yaqlized.__init__')
     if init is None:
         raise AnalysisError('anchor vanished: Yaqlized.__init__')
-    # the checker handed to GenericType.__init__
-    checker = None
-    for c in model.calls_in(init.node, shallow=True):
-        for k in c.keywords:
-            if k.arg == 'checker':
-                checker = k.value
-        if checker is None and isinstance(c.func, ast.Attribute) and \
-                c.func.attr == '__init__' and c.args:
-            checker = c.args[0]
-    fn = None
-    if isinstance(checker, ast.Name):
-        f2 = mod.functions.get(init.qualname + '.' + checker.id)
-        fn = f2.node if f2 is not None else None
-    elif isinstance(checker, ast.Lambda):
-        fn = checker
-    if fn is None:
-        raise AnalysisError('anchor vanished: the checker Yaqlized hands to '
-                            'GenericType')
     flags = [p for p in init.params()[1:]]
     keys = {'can_access_attributes': 'yaqlizeAttributes',
             'can_call_methods': 'yaqlizeMethods',
@@ -597,11 +588,47 @@ def check_yaqlized_type(repo, rep):
         raise AnalysisError('Yaqlized.__init__ capabilities changed: %s' %
                             flags)
     obj = absint.Sym('obj')
+
+    def checker_for(want):
+        """Run Yaqlized.__init__ abstractly for one choice of capabilities
+        and capture what it hands to the base-class constructor as the
+        checker, wherever and however that callable was built."""
+        got = []
+
+        def oracle(callee, args, kwargs):
+            if callee == 'builtins.super':
+                return (absint.Obj('super',
+                                   __init__=absint.Sym('base-init')),)
+            if callee == 'base-init' or callee.endswith(
+                    'GenericType.__init__'):
+                c = kwargs.get('checker')
+                if c is None:
+                    rest = [a for a in args if not isinstance(
+                        a, absint.Obj)]
+                    c = rest[0] if rest else None
+                got.append(c)
+                return (None,)
+            return None
+        it = absint.Interp(repo, mod, oracle)
+        amap = {0: absint.Obj('self')}
+        amap.update(dict(zip(flags, want)))
+        try:
+            it.run(init.node, amap)
+        except absint.Unsupported as e:
+            raise AnalysisError('R07e: Yaqlized.__init__ uses a construct '
+                                'outside the modelled fragment (%s): not '
+                                'decided' % e)
+        if len(got) != 1 or not isinstance(got[0], absint.Closure):
+            raise AnalysisError('anchor vanished: the checker Yaqlized '
+                                'hands to GenericType (%r)' % (got,))
+        return got[0]
     n = 0
     bad_none = []
     bad_flag = {f: [] for f in flags}
     bad_ok = []
     src_ok = [True]
+    checkers = {want: checker_for(want) for want in itertools.product(
+        (False, True), repeat=3)}
     for has in (False, True):
         for sw in itertools.product((False, True), repeat=3):
             for want in itertools.product((False, True), repeat=3):
@@ -615,10 +642,11 @@ def check_yaqlized_type(repo, rep):
                         return (_s,)
                     return None
                 it = absint.Interp(repo, mod, oracle)
-                cenv = dict(zip(flags, want))
+                clo = checkers[want]
                 try:
-                    out = it.run(fn, {0: obj, 1: absint.Sym('context'),
-                                      2: absint.Sym('engine')}, cenv)
+                    out = it.run(clo.node, {0: obj, 1: absint.Sym('context'),
+                                            2: absint.Sym('engine')},
+                                 clo.env)
                 except absint.Unsupported as e:
                     raise AnalysisError(
                         'R07e: the Yaqlized checker uses a construct '
